@@ -11,7 +11,7 @@ export const HOSTS = ['boundImport', 'unbound', 'member', 'memberHtmlName', 'Tel
 export const SHAPES = ['none', 'identBound', 'identUnbound', 'call', 'arrow', 'fnExpr', 'object', 'text', 'element', 'memberExpr', 'cond', 'mixed1', 'mixed2', 'spread', 'spreadCall', 'spreadThenText', 'nestedComp', 'wsOnly', 'elementWithDirective', 'elementWithVModel', 'litNull', 'litFalse', 'litZeroThenText', 'optMember', 'optMemberDeep', 'template', 'binary', 'newExpr', 'arrayLit', 'logicalOr', 'parenCall', 'awaitLike'];
 export const KINDS = ['vnode', 'string', 'array', 'slots', 'slotfn', 'number', 'nullish'];
 export const VSLOTS = ['absent', 'ident', 'objLit'];
-export const CONTEXTS = ['arrowExpr', 'moduleLevel', 'fnBody', 'nestedBlock', 'classMethod', 'arrowInArrow'];
+export const CONTEXTS = ['arrowExpr', 'moduleLevel', 'fnBody', 'nestedBlock', 'classMethod', 'arrowInArrow', 'arrowParamDefaultExprBody', 'arrowParamDefaultAndBody', 'fnParamDefault'];
 export const LOOP_CONTEXTS = ['forOfBlock', 'forOfNoBlock', 'mapArrowExpr', 'mapArrowAfterPending', 'whileBlock', 'forOfIfNoBlock', 'forOfIfElseNoBlock', 'forOfLabeledNoBlock', 'forInNoBlock', 'doWhileNoBlock', 'forClassicNoBlock', 'nestedForNoBlock', 'whileNoBlock', 'forOfTryNoBlock'];
 
 const KIND_SPEC = {
@@ -137,6 +137,11 @@ export function wrapContext(b, name, jsx, ctx) {
     case 'nestedBlock': b.thunks.push(`export function ${name}() {\n  if (typeof ${name} === "function") {\n    const r = ${jsx};\n    return r;\n  }\n}`); break;
     case 'classMethod': b.thunks.push(`class K_${name} {\n  m() {\n    return ${jsx};\n  }\n}`, `export const ${name} = () => new K_${name}().m();`); break;
     case 'arrowInArrow': b.thunks.push(`export const ${name} = () => (() => ${jsx})();`); break;
+    // the JSX sits in a parameter default: what it needs cannot be declared in the function body
+    case 'arrowParamDefaultExprBody': b.thunks.push(`const ${name}_h = (node = ${jsx}) => node;`, `export const ${name} = () => ${name}_h();`); break;
+    case 'arrowParamDefaultAndBody': b.thunks.push(`const ${name}_h = (node = ${jsx}) => [node, <i>{String(1)}</i>][0];`, `export const ${name} = () => ${name}_h();`); break;
+    case 'fnParamDefault': b.thunks.push(`function ${name}_h(node = ${jsx}) { return node; }`, `export const ${name} = () => ${name}_h();`); break;
+    case 'asyncArrowExpr': b.thunks.push(`const ${name}_h = async () => ${jsx};`, `let ${name}_r; ${name}_h().then((v) => { ${name}_r = v; });`, `export const ${name} = () => ${name}_r;`); break;
     default: throw new Error(ctx);
   }
 }
